@@ -5,7 +5,9 @@ LEVEL = "model_checking"
 UP = {"Listen": "LISTEN", "Flag": "FLAG", "Domain": "DOMAIN", "Host": "HOST", "TTL": "TTL2", "Mix": "MIX", "Pair": "PAIR", "Bogus": "BOGUS", "Five": "FIVE", "Many": "MANY", "Quiet": "QUIET", "Fail": "FAIL"}
 TOKS = [("53", "int"), ("-7", "int"), ("1.5", "float"), ("On", "bool1"), ("off", "bool0"), ("YES", "bool1"), ("no", "bool0"), ("true", "bool1"),
         ("False", "bool0"), ("1", "int1"), ("0", "int0"), ("mail", "str"), ("a b", "str"), ("it's", "str"), ('say "hi"', "str"), (".5", "str"),
-        ("5.", "str"), ("1.2.3", "str"), ("", "str"), ("x\\y", "str"), ("TRUE", "bool1"), ("OFF", "bool0"), ("Yes", "bool1"), ("No", "bool0")]
+        ("5.", "str"), ("1.2.3", "str"), ("", "str"), ("x\\y", "str"), ("TRUE", "bool1"), ("OFF", "bool0"), ("Yes", "bool1"), ("No", "bool0"),
+        # a sign needs digits behind it, and the rules about periods hold behind a sign too
+        ("-", "str"), ("-.5", "str"), ("-5.", "str"), ("--5", "str"), ("5-", "str"), ("-0", "int"), ("-1.5", "float"), ("-1.2.3", "str"), ("- 5", "str")]
 
 
 def tlc_docs(chk, module, maxlines, tag):
